@@ -82,8 +82,10 @@ class Panoptica_Aggregator:
         else:
             out_file_path += ".tsv"  # add extension
 
+        # one buffer file per output file, so that aggregators writing to different
+        # output files in the same directory do not share (or delete) each other's claims
         out_buffer_file: Path = Path(out_file_path).parent.joinpath(
-            "panoptica_aggregator_tmp.tsv"
+            Path(out_file_path).stem + "_panoptica_aggregator_tmp.tsv"
         )
         self.__output_buffer_file = out_buffer_file
 
